@@ -55,6 +55,10 @@ def _worker_init(stop=None):
 
 def _run_task(task):
     from sx import engine
+    flag = os.environ.get("SX_TEST_CRASH_ONCE")  # self-test of the dead-worker recovery: path of a flag file
+    if flag and task.get("index") == 5 and not os.path.exists(flag):
+        open(flag, "w").close()
+        os._exit(9)
     try:
         if task.get("kind") == "call":
             mod = importlib.import_module(task["module"])
@@ -175,35 +179,50 @@ def main(argv=None):
     known = load_known()
     tasks_with_new = 0
     stop_after = int(os.environ.get("SX_STOP_AFTER", "8"))  # tasks with unlisted counterexamples before the rest is abandoned
-    with cf.ProcessPoolExecutor(max_workers=max(1, min(nproc, len(tasks) or 1)), initializer=_worker_init, initargs=(stop,)) as pool:
-        futs = {pool.submit(_run_task, tasks[i]): i for i in order}
-        for f in cf.as_completed(futs):
-            i = futs[f]
-            try:
-                results[i] = f.result()
-            except cf.CancelledError:
-                results[i] = {"task": tasks[i], "skipped": True}
-            except BaseException as e:
-                results[i] = {"task": tasks[i], "fatal": repr(e)}
-            # Once several tasks have produced counterexamples that no known finding lists, the verdict can only be
-            # "violation" (if they replay) or "inconclusive": abandon the remaining tasks instead of exploring trees
-            # that a broken implementation may have made arbitrarily large.
-            r = results[i]
-            if not tasks[i].get("canary") and not stop.is_set() and any(
-                    v["label"] != "nontermination" and known_match(prop, sig_of(tasks[i], v["label"]), known) is None
-                    for v in r.get("violations", [])):  # a tripped path alarm proves nothing before its replay
-                tasks_with_new += 1
-                if tasks_with_new >= stop_after:
-                    stop.set()
-                    for g in futs:
-                        g.cancel()
-            if os.environ.get("SX_VERBOSE"):
+    # A worker can die abruptly (z3 has segfaulted once in ~10^7 queries here); that breaks the whole pool.  The
+    # unfinished tasks are then re-submitted to a fresh pool, at most twice; a task that is still unfinished after
+    # that is reported as a worker failure (inconclusive).
+    pending = list(order)
+    for attempt in range(3):
+        if not pending:
+            break
+        order = pending
+        with cf.ProcessPoolExecutor(max_workers=max(1, min(nproc, len(tasks) or 1)), initializer=_worker_init, initargs=(stop,)) as pool:
+            futs = {pool.submit(_run_task, tasks[i]): i for i in order}
+            for f in cf.as_completed(futs):
+                i = futs[f]
+                try:
+                    results[i] = f.result()
+                except cf.CancelledError:
+                    results[i] = {"task": tasks[i], "skipped": True}
+                except BaseException as e:
+                    results[i] = {"task": tasks[i], "fatal": repr(e)}
+                # Once several tasks have produced counterexamples that no known finding lists, the verdict can only be
+                # "violation" (if they replay) or "inconclusive": abandon the remaining tasks instead of exploring trees
+                # that a broken implementation may have made arbitrarily large.
                 r = results[i]
-                print(f"[{time.time()-t0:6.1f}s] task {i} {tasks[i].get('name', tasks[i].get('harness'))}: "
-                      f"paths={r.get('paths')} viol={r.get('violation_count')} exh={r.get('exhausted')} "
-                      f"{'FATAL ' + r['fatal'][-300:] if 'fatal' in r else ''}"
-                      f"{' HE ' + str(r['harness_errors'][:1]) if r.get('harness_errors') else ''}"
-                      f"{' INC ' + str(r['inconclusive'][:1]) if r.get('inconclusive') else ''}", flush=True)
+                if not tasks[i].get("canary") and not stop.is_set() and any(
+                        v["label"] != "nontermination" and known_match(prop, sig_of(tasks[i], v["label"]), known) is None
+                        for v in r.get("violations", [])):  # a tripped path alarm proves nothing before its replay
+                    tasks_with_new += 1
+                    if tasks_with_new >= stop_after:
+                        stop.set()
+                        for g in futs:
+                            g.cancel()
+                if os.environ.get("SX_VERBOSE"):
+                    r = results[i]
+                    print(f"[{time.time()-t0:6.1f}s] task {i} {tasks[i].get('name', tasks[i].get('harness'))}: "
+                          f"paths={r.get('paths')} viol={r.get('violation_count')} exh={r.get('exhausted')} "
+                          f"{'FATAL ' + r['fatal'][-300:] if 'fatal' in r else ''}"
+                          f"{' HE ' + str(r['harness_errors'][:1]) if r.get('harness_errors') else ''}"
+                          f"{' INC ' + str(r['inconclusive'][:1]) if r.get('inconclusive') else ''}", flush=True)
+        pending = [i for i in order if results[i] is not None and "BrokenProcessPool" in str(results[i].get("fatal", ""))]
+        if stop.is_set():
+            break
+        for i in pending:
+            results[i] = None if attempt < 2 else results[i]
+        if attempt == 2:
+            pending = []
     return finish(prop, tier, seed, mod, tasks, results, t0)
 
 
